@@ -410,6 +410,6 @@ def obligations(tier, seed):
                               bounds=f'D.rules over 3 supplemental rows (dates, numbers, text): {n} earlier classification(s) with symbolic fixture indices, then classify t (3 descriptions x 3 amounts, symbolic indices); rows compared item for item and type for type'))
     for i, (ops, fin) in enumerate(sequences(tier, seed)):
         obs.append(Obligation(id=f'seq-{i:03d}-' + '-'.join(ops) + '-then-' + fin, factory='sequence', params={'ops': ops, 'final': fin},
-                              timeout=120 if q else 900, group='history independence', replay_repeat=40,
+                              timeout=200 if q else 900, group='history independence', replay_repeat=40,
                               bounds=f'history {ops}, then {'classify t on the rules already loaded' if fin == '=' else 'load ' + fin + ' and classify t'}; description one of 6 fixtures and memo one of 4 (incl. no memo column) (symbolic index), amount one of 3 region representatives (symbolic indices; t1 = t with memo P)'))
     return obs
